@@ -225,9 +225,7 @@ def single_comm(case):
 def model_variant(case):
     """which emitted-code variant the builder must choose: 0 wait-all loop, 1 post routine / sequential,
     2 wait-correct-move-to-memory"""
-    if case["call"].startswith("recv_rsp"):
-        return 0
-    if case["post"]:
+    if case["post"] and not case["call"].startswith("recv_rsp"):
         return 1
     return 2 if single_comm(case) else 0
 
@@ -267,7 +265,7 @@ def run_keep(repo, ns, case):
     def on_meas(subroutine_id, q_address, forced):
         lk = ex.key(subroutine_id, q_address)
         mine = [k for k, (l, r, bs) in enumerate(pipe.bell_pairs) if l == lk]
-        if mine:
+        if mine and not (case.get("kind") == "unknown" and out["fid"][mine[-1]] is not None):
             k = mine[-1]
             out["fid"][k] = pair_fidelity(ex, lk, pipe.bell_pairs[k][1])
             out["same"][k] = pair_overlap(ex, lk, pipe.bell_pairs[k][1], qc.BellState(bells[k]).name)
@@ -275,6 +273,23 @@ def run_keep(repo, ns, case):
         return orig_on_meas(subroutine_id, q_address, forced)
 
     ex.on_meas = on_meas
+    if case.get("kind") == "unknown":
+        # whatever the method does with the pair after the corrections (basis change, measurement): read the pair's
+        # state just before the first gate on its qubit that is not a Pauli correction
+        orig_on_gate = ex.on_gate
+
+        def on_gate(instr, subroutine_id, addresses, nd):
+            if not (instr.mnemonic in ("rot_x", "rot_z") and nd == (16, 4)) and instr.mnemonic != "init":
+                for a in addresses:
+                    lk = ex.key(subroutine_id, a)
+                    mine = [k for k, (l, r, bs) in enumerate(pipe.bell_pairs) if l == lk]
+                    if mine and out["fid"][mine[-1]] is None:
+                        k = mine[-1]
+                        out["fid"][k] = pair_fidelity(ex, lk, pipe.bell_pairs[k][1])
+                        out["same"][k] = pair_overlap(ex, lk, pipe.bell_pairs[k][1], qc.BellState(bells[k]).name)
+            return orig_on_gate(instr, subroutine_id, addresses, nd)
+
+        ex.on_gate = on_gate
     try:
         from netqasm.sdk.qubit import Qubit
         with pipe.connection(epr_sockets=[sock]) as conn:
@@ -288,7 +303,7 @@ def run_keep(repo, ns, case):
             accepted = inspect.signature(fn).parameters
             kw = dict(number=n)
             if case.get("defaults"):
-                kw = {}      # call with default arguments only: the documented defaults must apply
+                kw = dict(case.get("extra_kw") or {})      # default arguments only: the documented defaults must apply
             elif case["post"] and "post_routine" in accepted:
                 kw["post_routine"] = lambda _c, q, _pair: q.measure()
             if case["seq"] and "sequential" in accepted and not case.get("defaults"):
@@ -316,9 +331,15 @@ def run_keep(repo, ns, case):
                     out["rejected"] = type(e).__name__ + ": " + (str(e).splitlines()[0][:160] if str(e) else "")
                     r = []
                 qs = r[0] if isinstance(r, tuple) else r   # *_with_info variants return (qubits, infos)
+                if case.get("kind") == "unknown":
+                    # a method the harness does not know: qubit handles if that is what it returns, else classical
+                    out["returned"] = type(r).__name__
+                    qs = [q for q in qs if isinstance(q, Qubit)] if isinstance(qs, (list, tuple)) else []
             conn.flush()
             out["ids"] = [q.qubit_id for q in qs]
             app = conn.app_id
+            if case.get("kind") == "unknown" and not qs:
+                out["classical"] = True      # the fidelity was read when the routine first touched / measured the qubit
             if not case["post"] and case.get("kind") != "context":
                 for i, q in enumerate(qs):
                     lk, rk = (app, q.qubit_id), ("remote", i)
@@ -341,7 +362,7 @@ def run_keep(repo, ns, case):
 
 def model_ids(case, res):
     """the qubit-ID array the builder hands to the controller: where each pair arrives"""
-    if single_comm(case) and not case["call"].startswith("recv_rsp"):
+    if single_comm(case):
         return [0] * case["n"]
     return list(res["ids"])
 
@@ -454,9 +475,13 @@ def discover_expect_variants(ctx):
                 found.append((name, KNOWN_EXPECT_VARIANTS[name], sorted(params)))
             else:
                 unknown.append(name)
-    ctx.gen_obligation("every public EPRSocket method taking expect_phi_plus is one the harness knows how to call",
-                       not unknown and bool(found), f"unknown: {unknown}; found: {[f[0] for f in found]}")
-    return found, public
+    # the documented variants must all still be there (a removed one is caught by the signature obligation as well);
+    # a NEW method with the switch is exercised generically (exercise_unknown) and recorded under coverage.unknown_api
+    missing = [n for n in ("recv_keep", "recv_keep_with_info", "recv_rsp", "recv_rsp_with_info", "recv_measure")
+               if n not in [f[0] for f in found]]
+    ctx.gen_obligation("every documented EPRSocket method taking expect_phi_plus is present and callable by the harness",
+                       not missing and bool(found), f"missing: {missing}; found: {[f[0] for f in found]}")
+    return found, public, unknown
 
 
 def variant_cases(ctx, found, bvals, quick):
@@ -477,13 +502,74 @@ def variant_cases(ctx, found, bvals, quick):
                         if kind == "context":
                             c.update(no_model=True, n=1, bells=[tup[0]])
                         cases.append(c)
-            if kind == "keep":
+            if kind in ("keep", "rsp"):
                 # the same variant on single-communication-qubit devices (generic with one qubit, NV, NV by swap)
                 for hw, maxq, n in (("generic", 1, 1), ("nv", 2, 2), ("nvswap", 2, 2)):
                     for tup in itertools.product(bvals, repeat=n):
                         cases.append(dict(cfg="api:" + name, variant=2, hardware=hw, maxq=maxq, call=name, post=False,
                                           seq=False, live=[0, []], n=n, bells=list(tup), expect=expect, kind=kind))
     return cases
+
+
+def exercise_unknown(ctx, ns, table, name):
+    """A public method with an expect_phi_plus parameter that the frozen table does not know (new API).  Generic
+    invocation with default arguments (and with only expect_phi_plus=False) on the scripted link layer: first with a
+    keep-type response - qubit handles or a routine that consumes the pair get the Phi+ oracle (state read before the
+    first non-correction gate / measurement on the pair's qubit) -, else with a measure-directly response and the
+    default-Z post-processing oracle.  What cannot be interpreted is recorded as not exercised: never an obligation."""
+    qc = ns.qc
+    nrun, how = 0, None
+    before = len(ctx.violations)
+    for extra_kw in ({}, {"expect_phi_plus": False}):
+        for b in qc.BellState:
+            case = dict(cfg="unknown:" + name, hardware="generic", call=name, post=False, seq=False, live=[0, []], n=1,
+                        bells=[b.value], expect=not extra_kw, kind="unknown", no_model=True, defaults=True,
+                        extra_kw=dict(extra_kw), seed=nrun)
+            case["variant"] = model_variant(case)
+            res = run_keep(ctx.repo, ns, case)
+            usable = (not res["error"] and not res.get("rejected") and res["fid"][0] is not None)
+            if usable:
+                how = "keep-type response: " + ("classical result (" + str(res.get("returned")) + "), pair read before its "
+                                                "first non-correction gate / measurement" if res.get("classical") else
+                                                "qubit handles, pair read after the call")
+                nrun += 1
+                ctx.note_case(("unknown:" + name, b.name, str(extra_kw)), nontrivial=b != qc.BellState.PHI_PLUS)
+                judge(ctx, ns, table, case, res, [], [])
+                continue
+            # measure-directly interpretation
+            ok_m = True
+            for m in (0, 1):
+                mc = dict(call=name, kw=dict(extra_kw), node=1, sock=0, own_node=0)
+                d = dict(type=qc.ReturnType.OK_M.value, create_id=7, measurement_outcome=m, measurement_basis=qc.Basis.Z.value,
+                         directionality_flag=1 if name.startswith("recv") else 0, sequence_number=0, purpose_id=0,
+                         remote_node_id=1, goodness=5, bell_state=b.value)
+                mc["resp"] = [[d[f] for f in qc.LinkLayerOKTypeM._fields]]
+                try:
+                    mres = ec.run_case(ctx.repo, ns, mc)
+                    got = None if (mres.error or not mres.handles or len(mres.handles["meas"]) != 1) else mres.handles["meas"][0]
+                except Exception:  # noqa
+                    got = None
+                if got is None or got.get("measurement_outcome") not in (0, 1):
+                    ok_m = False
+                    break
+                nrun += 1
+                how = "measure-directly response, default Z basis"
+                expect = not extra_kw
+                want = m ^ 1 if (expect and name.startswith("recv") and b.name in ("PSI_PLUS", "PSI_MINUS")) else m
+                if got["measurement_outcome"] != want:
+                    ctx.violation("a new measure-directly variant called with default arguments does not post-process as "
+                                  "documented for expect_phi_plus", dict(variant=name, kw=dict(extra_kw), bell_state=b.name,
+                                                                         raw_outcome=m, expected=want,
+                                                                         observed=got["measurement_outcome"]), key=None)
+            if not ok_m and how is None:
+                ctx.coverage.setdefault("unknown_api", {})[name] = (
+                    "not exercised: the generic invocation with default arguments could not be interpreted (" +
+                    str(res["error"] or res.get("rejected") or "no qubit handle, no measurement of the pair")[:160] + ")")
+                return 0
+    ctx.coverage.setdefault("unknown_api", {})[name] = (
+        f"new method with expect_phi_plus, exercised generically ({how}): {nrun} runs x all Bell states x default / "
+        f"expectation off, {len(ctx.violations) - before} violations")
+    return nrun
 
 
 def default_argument_cases(ctx, found, public, bvals):
@@ -498,8 +584,6 @@ def default_argument_cases(ctx, found, public, bvals):
             names.append((extra, "keep"))
     for name, kind in names:
         for hw, maxq, live in (("generic", None, (0, [])), ("generic", None, (3, [1])), ("nv", 2, (0, [])), ("generic", 1, (0, []))):
-            if kind == "rsp" and (hw != "generic" or maxq):
-                continue
             for b in bvals:
                 c = dict(cfg="defaults:" + name, hardware=hw, call=name, post=False, seq=False, live=[live[0], list(live[1])],
                          n=1, bells=[b], expect=True, kind=kind, defaults=True)
@@ -749,7 +833,7 @@ def run(ctx):
                     add(mk_case(shape, "generic", None, live, n, tup))
     # (ii) hardware configurations
     for hw, maxq in HARDWARE:
-        for shape in SHAPES:
+        for shape in SHAPES + [RSP]:
             lives = [(0, [])] + ([(1, [])] if (hw, maxq) == ("generic", 2) else [])
             for live in lives:
                 for n in (1, 2, 3, 4):
@@ -799,15 +883,20 @@ def run(ctx):
                         if hw == "generic" and maxq is None and n + 1 > 0:
                             c["maxq"] = max(2, n + 1)
                         cases.append(c)
-    found, public = discover_expect_variants(ctx)
+    found, public, unknown_methods = discover_expect_variants(ctx)
     ctx.coverage["expect_phi_plus_variants"] = [f[0] for f in found]
     ctx.coverage["public_epr_socket_methods"] = public
     cases += variant_cases(ctx, found, bvals, quick)
     cases += default_argument_cases(ctx, found, public, bvals)
-    methods, diffs = ec.signature_defaults_report()
-    ctx.gen_obligation("every public create*/recv* method of EPRSocket has the documented default for every parameter "
-                       "(frozen table, compared with inspect.signature)", not diffs and bool(methods), "; ".join(diffs))
+    methods, diffs, unknown_api = ec.signature_defaults_report()
+    ctx.gen_obligation("every documented (method, parameter) of the public create*/recv* methods of EPRSocket has the "
+                       "documented default (frozen table, compared with inspect.signature)", not diffs and bool(methods),
+                       "; ".join(diffs))
     ctx.coverage["signature_defaults_checked"] = methods
+    for u in unknown_api:     # new API is not evidence against the property: recorded, exercised where possible
+        ctx.coverage.setdefault("unknown_api", {})[u] = "not in the frozen table of documented signatures (recorded only)"
+    for name in unknown_methods:
+        dist["unknown:" + name] = exercise_unknown(ctx, ns, table, name)
     nmeas = measure_variant_runs(ctx, ns, found, quick)
     nmeas += measure_statistics_through_api(ctx, ns)
     nmeas += measure_default_runs(ctx, ns, found)
